@@ -46,6 +46,62 @@ class CheckerError(Exception):
     """Malformed contract / internal inconsistency: exit code 3, never a violation."""
 
 
+_wk_memo = {}
+
+
+def weaken(t):
+    """Quantifier-free weakening of a formula (for feasibility checks only): positive quantified subformulas
+    become True, negative ones False; where polarity is mixed the enclosing conjunct is dropped (True).
+    The result is implied by t, so using it can only make more paths look feasible (sound)."""
+    if not has_quantifier(t):
+        return t
+    key = t.get_id()
+    hit = _wk_memo.get(key)
+    if hit is not None and hit[0].eq(t):
+        return hit[1]
+    r = _weaken(t, True)
+    r = r if r is not None else z3.BoolVal(True)
+    if len(_wk_memo) > 50000:
+        _wk_memo.clear()
+    _wk_memo[key] = (t, r)
+    return r
+
+
+def _weaken(t, pos):
+    if not has_quantifier(t):
+        return t
+    if z3.is_quantifier(t):
+        return z3.BoolVal(True) if pos else z3.BoolVal(False)
+    if z3.is_and(t) or z3.is_or(t):
+        kids = []
+        for c in t.children():
+            w = _weaken(c, pos)
+            if w is None:
+                w = z3.BoolVal(True) if pos else z3.BoolVal(False)
+            kids.append(w)
+        return z3.And(*kids) if z3.is_and(t) else z3.Or(*kids)
+    if z3.is_not(t):
+        w = _weaken(t.children()[0], not pos)
+        return None if w is None else z3.Not(w)
+    if z3.is_implies(t):
+        a, b = t.children()
+        wa = _weaken(a, not pos)
+        wb = _weaken(b, pos)
+        if wa is None or wb is None:
+            return None
+        return z3.Implies(wa, wb)
+    if z3.is_app(t) and t.decl().kind() == z3.Z3_OP_ITE and z3.is_bool(t):
+        c, a, b = t.children()
+        if has_quantifier(c):
+            return None
+        wa = _weaken(a, pos)
+        wb = _weaken(b, pos)
+        if wa is None or wb is None:
+            return None
+        return z3.If(c, wa, wb)
+    return None
+
+
 class ReturnEx(Exception):
     def __init__(self, value):
         self.value = value
@@ -185,13 +241,17 @@ class PathCtx:
         self.decisions = list(decisions)
         self.pos = 0
         self.pc = list(base_pc)
-        self.kinds = ["X"] * len(self.pc)  # parallel to pc: 'X' base, 'A' assumption, 'B' branch condition
+        # parallel to pc: 'X' base, 'A' assumption, 'B' branch condition, 'G' global fact, 'D' heavy definition
+        bk = getattr(explorer, "base_kinds", None)
+        self.kinds = (["D" if k == "D" else "X" for k in bk] + ["X"] * (len(self.pc) - len(bk))) if bk else ["X"] * len(self.pc)
         self.explorer = explorer
         self.alternatives = []
         self.obligations = []
         self.assumptions_used = []  # names of assumptions (field types, axioms) used on this path
         self.fresh_n = 0
         self._solver = None
+        self.memo = {}
+        self.parent = getattr(explorer, "parent", None)
 
     # ---- fresh symbols (deterministic per path so that prefixes coincide) ----
     def fresh(self, base, sort, idx=()):
@@ -207,23 +267,22 @@ class PathCtx:
         if self._solver is None:
             s = z3.Solver()
             s.set("timeout", self.explorer.branch_timeout_ms)
-            for c in self.pc:
-                if not has_quantifier(c):
-                    s.add(c)
+            for c, k in zip(self.pc, self.kinds):
+                if k != "D":
+                    s.add(weaken(c))
             self._solver = s
             self._solver_n = len(self.pc)
         else:
             while self._solver_n < len(self.pc):
                 c = self.pc[self._solver_n]
-                if not has_quantifier(c):
-                    self._solver.add(c)
+                if self.kinds[self._solver_n] != "D":
+                    self._solver.add(weaken(c))
                 self._solver_n += 1
         return self._solver
 
     def feasible(self, cond):
         s = self.solver()
-        if has_quantifier(cond):
-            return True
+        cond = weaken(cond)
         s.push()
         s.add(cond)
         t0 = time.time()
@@ -233,12 +292,23 @@ class PathCtx:
         s.pop()
         return r != z3.unsat  # unknown counts as feasible (sound: more paths)
 
-    def assume(self, cond, name=None):
+    def feasible_full(self, timeout_ms=5000):
+        """Feasibility with the complete path condition (quantifiers included); unknown counts as feasible."""
+        s = z3.Solver()
+        s.set("timeout", timeout_ms)
+        for c in self.pc:
+            s.add(c)
+        return s.check() != z3.unsat
+
+    def assume(self, cond, name=None, glob=False, heavy=False):
+        """glob=True: the fact is self-guarded and valid on every path (type facts); it is propagated unguarded.
+        heavy=True: a large definitional formula -- kept for the final obligations, left out of the feasibility
+        checks (fewer constraints there is sound)."""
         cond = simp(cond) if not isinstance(cond, bool) else z3.BoolVal(cond)
         if z3.is_true(cond):
             return
         self.pc.append(cond)
-        self.kinds.append("A")
+        self.kinds.append("D" if heavy else ("G" if glob else "A"))
         if name:
             self.assumptions_used.append(name)
 
@@ -296,6 +366,15 @@ class PathCtx:
         self.pos += 1
         return 0
 
+    def memo_get(self, key):
+        c = self
+        while c is not None:
+            v = c.memo.get(key)
+            if v is not None:
+                return v
+            c = c.parent
+        return None
+
     def check_feasible(self):
         if not self.feasible(z3.BoolVal(True)):
             raise Infeasible()
@@ -313,14 +392,15 @@ class PathCtx:
 
 class PathResult:
     __slots__ = ("pc", "state", "outcome", "value", "obligations", "assumptions", "decisions", "branches", "assumes",
-                 "kinds")
+                 "kinds", "globals")
 
     def __init__(self, pc, state, outcome, value, obligations, assumptions, decisions, kinds=None):
         self.pc = pc
         kinds = kinds or ["B"] * len(pc)
         self.kinds = list(kinds)
-        self.branches = [c for c, k in zip(pc, kinds) if k != "A"]
-        self.assumes = [c for c, k in zip(pc, kinds) if k == "A"]
+        self.branches = [c for c, k in zip(pc, kinds) if k not in ("A", "G", "D")]
+        self.assumes = [c for c, k in zip(pc, kinds) if k in ("A", "D")]
+        self.globals = [c for c, k in zip(pc, kinds) if k == "G"]
         self.state = state
         self.outcome = outcome  # 'return' | 'raise' | 'fall' | 'break' | 'continue'
         self.value = value
@@ -333,10 +413,12 @@ _uid = [0]
 
 
 class Explorer:
-    def __init__(self, base_pc=(), branch_timeout_ms=2000, max_paths=20000, stats=None):
+    def __init__(self, base_pc=(), branch_timeout_ms=2000, max_paths=20000, stats=None, base_kinds=None, parent=None):
         _uid[0] += 1
         self.uid = _uid[0]
         self.base_pc = list(base_pc)
+        self.base_kinds = list(base_kinds) if base_kinds is not None else None
+        self.parent = parent  # enclosing PathCtx (its path condition is a prefix of ours): memo lookups chain up
         self.branch_timeout_ms = branch_timeout_ms
         self.max_paths = max_paths
         self.stats = stats if stats is not None else {"branch_checks": 0, "branch_time": 0.0, "paths": 0,
